@@ -81,7 +81,14 @@ structure DddmpFile where
   nroots : Option Int := none
   rootids : Option (List Int) := none
   nodes : List DddmpNode := []
-deriving Repr, Inhabited
+  /-- header lines the parser accepts and the loader never reads (`DD/DddmpText.lean`):
+  `.ver name-a.b`, `.mode A` (any other mode is refused while parsing), `.dd name`
+  (`Parser.bdd_name`), `.add` (`Parser.algebraic_dd = True`: an ADD file is NOT refused) -/
+  ver : Option (String × Int × Int) := none
+  mode : Option String := none
+  ddname : Option String := none
+  add : Bool := false
+deriving Repr, Inhabited, DecidableEq
 
 /-- `len(x) != n` where `n` may be `None` -/
 def lenNe (l : List α) (n : Option Int) : Bool := n != some (l.length : Int)
@@ -394,7 +401,11 @@ The DDDMP rule for the variable a node line belongs to:
   when `.orderedvarnames` is present (it lists ALL variables of the writer by level) and
   `suppvarnames[j]` otherwise.
 
-(A file with neither list of names has no names: not covered by this reading.) -/
+A file with neither list of names has no names.  The loader then INVENTS one: the variable at
+level `L` is the Python `int` `permids[L]` (`levels = {idx: level for level, idx in
+enumerate(permids)}`), i.e. the `j`-th support variable is called `permids[permids[j]]`.  That is
+the index `ids[j]` of the variable in the writer exactly when `permids[permids[j]] = ids[j]` for
+every `j` (e.g. the identity order); `dddmpSuppName` states the loader's convention. -/
 
 /-- first position of `a` in `l` -/
 def posOf (a : Int) : List Int → Option Nat
@@ -411,7 +422,12 @@ def dddmpSuppName (f : DddmpFile) (j : Nat) : Option DddmpTok :=
   | none =>
     match f.suppvarnames with
     | some sv => sv[j]?
-    | none => none
+    | none =>
+      -- a file without names: the loader calls the variable at level `L` `permids[L]` (an `int`),
+      -- so the `j`-th support variable, at level `permids[j]`, is called `permids[permids[j]]`
+      match (f.permids.getD [])[j]? with
+      | some k => if 0 ≤ k then ((f.permids.getD [])[k.toNat]?).map .num else none
+      | none => none
 
 /-- the variable NAME the `info` column of a non-terminal node line stands for -/
 def dddmpNameOf (f : DddmpFile) (info : DddmpTok) : Option DddmpTok :=
@@ -485,6 +501,11 @@ def parseDddmpField (f : DddmpFile) (kv : String) : Option DddmpFile :=
     | "rootids" => (parseIntList v).map fun x => { f with rootids := some x }
     | "nodes" => ((splitList v ';').mapM parseNodeLine).map fun x => { f with nodes := x }
     | "text" => some f                    -- path of the text file, for the real code only
+    -- header lines the loader never reads
+    | "add" => some { f with add := v == "1" }
+    | "mode" => some { f with mode := some v }
+    | "dd" => some { f with ddname := some v }
+    | "ver" => some f
     | _ => none
   | _ => none
 
